@@ -116,6 +116,8 @@ impl RdfStore {
                 return false;
             }
         }
+        #[cfg(grafeo_verif)]
+        grafeo_common::verif::yield_point("rdf.insert.after_check");
 
         // Insert into primary storage
         {
